@@ -95,6 +95,7 @@ type Exec struct {
 	entryMem       map[*Object]*ObjState
 	lockDiscipline bool
 	funcIds        map[string]int64
+	strContents    map[int]*Content
 }
 
 func NewExec(prog *Program, fn *ssa.Function, prop string) *Exec {
@@ -244,9 +245,9 @@ func (x *Exec) symbolic(st *State, t types.Type, name string, pre bool, depth in
 		isnil := tb.Fresh(name+".isnil", SBool)
 		o := x.newObject(name, false, u.Elem(), pre)
 		if depth > 6 {
-			st.mem[o] = &ObjState{Val: x.zeroValue(u.Elem())}
+			st.mem[o] = &ObjState{Val: x.memInit(st, o, x.zeroValue(u.Elem()))}
 		} else {
-			st.mem[o] = &ObjState{Val: x.symbolic(st, u.Elem(), name+"^", pre, depth+1)}
+			st.mem[o] = &ObjState{Val: x.memInit(st, o, x.symbolic(st, u.Elem(), name+"^", pre, depth+1))}
 		}
 		return &PtrV{IsNil: isnil, Obj: o, Elem: u.Elem()}
 	case *types.Interface:
@@ -364,7 +365,12 @@ func (x *Exec) readElem(st *State, o *Object, idx *Term, path []int, t types.Typ
 		}
 		return sv
 	}
-	// non-scalar leaf inside array element: over-approximate by a fresh value
+	// non-scalar leaf inside array element: kept only for concrete indices
+	if idx.IsConst() {
+		if v, ok := os.Cells[idx.val.String()+"/"+pathKey(path)]; ok {
+			return v
+		}
+	}
 	x.warn("array element leaf of type %s is havocked on read", t)
 	return x.symbolic(st, t, "havocleaf", false, 3)
 }
@@ -374,7 +380,7 @@ func (x *Exec) writeElem(st *State, o *Object, idx *Term, path []int, t types.Ty
 		return
 	}
 	os := x.objState(st, o)
-	n := &ObjState{Leaves: map[string]*Content{}, ALen: os.ALen}
+	n := &ObjState{Leaves: map[string]*Content{}, ALen: os.ALen, Cells: os.Cells}
 	for k, c := range os.Leaves {
 		n.Leaves[k] = c
 	}
@@ -394,10 +400,120 @@ func (x *Exec) writeElem(st *State, o *Object, idx *Term, path []int, t types.Ty
 			}
 			return
 		}
-		x.warn("write of non-scalar array element leaf of type %s dropped", t)
+		if idx.IsConst() {
+			cells := map[string]SVal{}
+			for k, c := range n.Cells {
+				cells[k] = c
+			}
+			cells[idx.val.String()+"/"+pathKey(path)] = v
+			n.Cells = cells
+			return
+		}
+		x.warn("write of non-scalar array element leaf of type %s at a symbolic index dropped", t)
 	}
 	rec(path, t, v)
 	st.mem[o] = n
+}
+
+// memInit converts array values inside v into ArrayRefs to fresh sub-objects (memory representation).
+func (x *Exec) memInit(st *State, owner *Object, v SVal) SVal {
+	switch t := v.(type) {
+	case *ArrayV:
+		o := x.newObject(owner.Name+".arr", true, t.T.Elem(), owner.Pre)
+		o.Global = owner.Global
+		leaves := map[string]*Content{}
+		for k, c := range t.Leaves {
+			leaves[k] = c
+		}
+		st.mem[o] = &ObjState{Leaves: leaves, ALen: x.tb.BVi(64, t.T.Len())}
+		return &ArrayRef{Obj: o, T: t.T}
+	case *StructV:
+		n := &StructV{T: t.T, Fields: make([]SVal, len(t.Fields))}
+		for i, f := range t.Fields {
+			n.Fields[i] = x.memInit(st, owner, f)
+		}
+		return n
+	}
+	return v
+}
+
+// memToValue converts the memory representation back to a value (ArrayRef -> ArrayV snapshot).
+func (x *Exec) memToValue(st *State, v SVal) SVal {
+	switch t := v.(type) {
+	case *ArrayRef:
+		av := &ArrayV{T: t.T, Leaves: map[string]*Content{}}
+		for k, c := range x.objState(st, t.Obj).Leaves {
+			av.Leaves[k] = c
+		}
+		return av
+	case *StructV:
+		has := false
+		var walk func(s SVal)
+		walk = func(s SVal) {
+			switch u := s.(type) {
+			case *ArrayRef:
+				has = true
+			case *StructV:
+				for _, f := range u.Fields {
+					walk(f)
+				}
+			}
+		}
+		walk(t)
+		if !has {
+			return t
+		}
+		n := &StructV{T: t.T, Fields: make([]SVal, len(t.Fields))}
+		for i, f := range t.Fields {
+			n.Fields[i] = x.memToValue(st, f)
+		}
+		return n
+	}
+	return v
+}
+
+// memStore writes value v over the memory subtree cur (keeping ArrayRefs, overwriting their cells).
+func (x *Exec) memStore(st *State, owner *Object, cur, v SVal) SVal {
+	switch c := cur.(type) {
+	case *ArrayRef:
+		if av, ok := v.(*ArrayV); ok {
+			leaves := map[string]*Content{}
+			for k, ct := range av.Leaves {
+				leaves[k] = ct
+			}
+			st.mem[c.Obj] = &ObjState{Leaves: leaves, ALen: x.tb.BVi(64, c.T.Len())}
+			return c
+		}
+		return c
+	case *StructV:
+		if sv, ok := v.(*StructV); ok && len(sv.Fields) == len(c.Fields) {
+			n := &StructV{T: sv.T, Fields: make([]SVal, len(sv.Fields))}
+			for i := range sv.Fields {
+				n.Fields[i] = x.memStore(st, owner, c.Fields[i], sv.Fields[i])
+			}
+			return n
+		}
+	}
+	return x.memInit(st, owner, v)
+}
+
+// arrayField resolves a pointer to an array-typed location inside a single object to its cell object.
+func (x *Exec) arrayField(st *State, p *PtrV) (*Object, *Term) {
+	if p.Obj.Array {
+		idx := p.Idx
+		if idx == nil {
+			idx = x.tb.BVi(64, 0)
+		}
+		return p.Obj, idx
+	}
+	if p.Obj.Dummy {
+		return p.Obj, x.tb.BVi(64, 0)
+	}
+	ref, ok := getPath(x.objState(st, p.Obj).Val, p.Path).(*ArrayRef)
+	if !ok {
+		panic(fmt.Sprintf("arrayField: %s%s is not an array location", p.Obj, pathKey(p.Path)))
+	}
+	return ref.Obj, x.tb.BVi(64, 0)
 }
 
 func (x *Exec) load(st *State, p *PtrV, t types.Type) SVal {
@@ -418,7 +534,7 @@ func (x *Exec) load(st *State, p *PtrV, t types.Type) SVal {
 		return x.readElem(st, p.Obj, p.Idx, p.Path, t)
 	}
 	os := x.objState(st, p.Obj)
-	return getPath(os.Val, p.Path)
+	return x.memToValue(st, getPath(os.Val, p.Path))
 }
 
 func (x *Exec) store(st *State, p *PtrV, t types.Type, v SVal) {
@@ -439,7 +555,7 @@ func (x *Exec) store(st *State, p *PtrV, t types.Type, v SVal) {
 		return
 	}
 	os := x.objState(st, p.Obj)
-	st.mem[p.Obj] = &ObjState{Val: setPath(os.Val, p.Path, v)}
+	st.mem[p.Obj] = &ObjState{Val: setPath(os.Val, p.Path, x.memStore(st, p.Obj, getPath(os.Val, p.Path), v))}
 }
 
 // ---------- running ----------
@@ -538,7 +654,7 @@ func (x *Exec) globalObj(st *State, g *ssa.Global) *Object {
 		x.newArrayObjectInto(tmp, o, g.Name())
 		os = tmp.mem[o]
 	} else {
-		os = &ObjState{Val: x.symbolic(tmp, elem, "G."+g.Pkg.Pkg.Name()+"."+g.Name(), true, 0)}
+		os = &ObjState{Val: x.memInit(tmp, o, x.symbolic(tmp, elem, "G."+g.Pkg.Pkg.Name()+"."+g.Name(), true, 0))}
 		// sentinel error globals: non-nil, distinct identity
 		if iv, ok := os.Val.(*IfaceV); ok {
 			id := int64(500000 + len(x.globals))
@@ -751,7 +867,7 @@ func (x *Exec) step(fr *Frame, st *State, ins ssa.Instruction) bool {
 			fr.env[v] = &PtrV{IsNil: tb.False(), Obj: o, Idx: tb.BVi(64, 0), Elem: elem}
 		} else {
 			o := x.newObject(name, false, elem, false)
-			st.mem[o] = &ObjState{Val: x.zeroValue(elem)}
+			st.mem[o] = &ObjState{Val: x.memInit(st, o, x.zeroValue(elem))}
 			fr.env[v] = &PtrV{IsNil: tb.False(), Obj: o, Elem: elem}
 		}
 	case *ssa.FieldAddr:
@@ -774,11 +890,8 @@ func (x *Exec) step(fr *Frame, st *State, ins ssa.Instruction) bool {
 			at := bv.Elem.Underlying().(*types.Array)
 			x.safety(st, fr, "nil("+x.srcText(v.Pos())+")", tb.Not(bv.IsNil), v.Pos())
 			x.safety(st, fr, "index("+x.srcText(v.Pos())+")", tb.And(tb.BVCmp("bvsle", tb.BVi(64, 0), idx), tb.BVCmp("bvslt", idx, tb.BVi(64, at.Len()))), v.Pos())
-			base := bv.Idx
-			if base == nil {
-				base = tb.BVi(64, 0)
-			}
-			fr.env[v] = &PtrV{IsNil: tb.False(), Obj: bv.Obj, Idx: tb.BVBin("bvadd", base, idx), Elem: at.Elem()}
+			aobj, base := x.arrayField(st, bv)
+			fr.env[v] = &PtrV{IsNil: tb.False(), Obj: aobj, Idx: tb.BVBin("bvadd", base, idx), Elem: at.Elem()}
 		default:
 			panic(fmt.Sprintf("IndexAddr on %T", base))
 		}
@@ -914,11 +1027,8 @@ func (x *Exec) sliceOp(fr *Frame, st *State, v *ssa.Slice) {
 	case *PtrV:
 		at := bv.Elem.Underlying().(*types.Array)
 		x.safety(st, fr, "nil("+x.srcText(v.Pos())+")", tb.Not(bv.IsNil), v.Pos())
-		obj, elem = bv.Obj, at.Elem()
-		off = bv.Idx
-		if off == nil {
-			off = tb.BVi(64, 0)
-		}
+		elem = at.Elem()
+		obj, off = x.arrayField(st, bv)
 		ln, cp = tb.BVi(64, at.Len()), tb.BVi(64, at.Len())
 	default:
 		x.warn("slice of %T (string?) havocked", base)
@@ -1242,6 +1352,8 @@ func (x *Exec) payloadFor(st *State, iv *IfaceV, t types.Type) SVal {
 	key := types.TypeString(t, nil)
 	if iv.payloads == nil {
 		iv.payloads = map[string]SVal{}
+	}
+	if iv.pmemo == nil {
 		iv.pmemo = map[string]*payloadMemo{}
 	}
 	if p, ok := iv.payloads[key]; ok {
